@@ -1,6 +1,7 @@
 (* C07 - decoding consumes exactly one encoding and preserves what follows.  Statements only. *)
 From PV Require Import Base.Bytes Model.Proc Model.Types Model.TableTypes Model.Enc Model.Dec Gen.Tables
-     Proofs.ProcSim Proofs.DecStream Proofs.TagsetShape Proofs.RoundTrip1 Proofs.RoundTrip2 Proofs.StreamStage2 Proofs.RoundTrip3b Proofs.RoundTrip3e.
+     Proofs.ProcSim Proofs.DecStream Proofs.TagsetShape Proofs.RoundTrip1 Proofs.RoundTrip2 Proofs.StreamStage2 Proofs.RoundTrip3b Proofs.RoundTrip3e
+     Proofs.RoundTripModesC Proofs.RoundTripModes Proofs.StreamClean Proofs.StreamStage3.
 Local Open Scope nat_scope.
 
 (* Generic: a decoder that never looks at the end of its input returns the same value whatever
@@ -74,3 +75,19 @@ Theorem C07_tail_preserved_stage3 : forall ce cd T v b tl,
   exists v', decode cd (Some T) (b ++ tl) = Ok (DV T v', tl) /\ abs T v' = abs T v.
 Proof. exact roundtrip_stage3. Qed.
 Print Assumptions C07_tail_preserved_stage3.
+
+(* streams of encodings over the whole universe (definite mode) and in indefinite-length mode: n
+   objects, the i-th position is the end of the i-th encoding, one-shot and under any schedule (c07_concl) *)
+Theorem C07_stage3_stream_of_encodings : forall ce cd T vs bs fuel,
+  enc_ok ce -> stage3_ty false ce T = true -> enc3_all ce cd T vs bs -> bs <> [] ->
+  (length bs <= fuel)%nat -> (forall b, In b bs -> (length b + ty_depth T <= fuel)%nat) ->
+  exists ds, Forall2 (same_rel eq T) vs ds /\ c07_concl cd fuel (Some T) bs ds.
+Proof. exact c07_stage3_stream. Qed.
+Print Assumptions C07_stage3_stream_of_encodings.
+
+Theorem C07_indefinite_stream_of_encodings : forall cd chunk T vs bs fuel,
+  dec_ok cd -> stage2_ty T = true -> RoundTripModes.no_f01 T = true -> encm_all BER cd false chunk T vs bs -> bs <> [] ->
+  (length bs <= fuel)%nat -> (forall b, In b bs -> (length b + ty_depth T <= fuel)%nat) ->
+  exists ds, Forall2 (same_rel eq T) vs ds /\ c07_concl cd fuel (Some T) bs ds.
+Proof. exact c07_indefinite. Qed.
+Print Assumptions C07_indefinite_stream_of_encodings.
